@@ -442,9 +442,9 @@ class MinErrorFlow():
                     return True
                 else:
                     utils.logger.warning(f"{__name__}: model not solved, status = {self.solver.get_model_status()}")
-                    # The model is not solved: do not keep serving the solution cached by the hack above
-                    self._solution = None
                 
+        # The model is not solved: do not keep serving a solution cached by the hack above or by an earlier call of solve()
+        self._solution = None
         self._is_solved = False
         return False
 
